@@ -110,11 +110,11 @@ func longestList(c *ucfg.Config) int {
 // recNode is a recursive target type: a setting that refers back to an enclosing object must end in an error,
 // not in unbounded recursion.
 type recNode struct {
-	Name string              `config:"k"`
+	Name string              `config:"n"`
 	Next *recNode            `config:"o"`
 	A    *recNode            `config:"a"`
 	L    []recNode           `config:"l"`
-	M    map[string]*recNode `config:"n"`
+	M    map[string]*recNode `config:"m"`
 }
 
 // exercise calls every read entry point on c; only "returns" is asserted.
@@ -231,7 +231,7 @@ func runVar(c VarCase, r *runlog.R) error {
 		key = "a"
 	}
 	cfg, err := ucfg.NewFrom(map[string]interface{}{
-		key: c.S, "b": "v", "0": "z", "o": map[string]interface{}{"k": c.S, "n": 1}, "l": []interface{}{c.S, 1},
+		key: c.S, "b": "v", "0": "z", "o": map[string]interface{}{"k": c.S, "n": 1, "o": c.S, "a": "${o}"}, "l": []interface{}{c.S, 1},
 	}, varOpts...)
 	if err != nil {
 		r.NonTrivial()
@@ -528,7 +528,7 @@ var oddNames = func() []string {
 }()
 
 var (
-	oddTags = []string{"a", "b", "l", "o", "n", ",inline", "a,replace", "l,append", "l,prepend", ",ignore", "o.x", "zz", "r", "d"}
+	oddTags = []string{"a", "b", "l", "o", "n", ",inline", "a,replace", "l,append", "l,prepend", ",ignore", "o.x", "zz", "r", "d", "t", "f", "t", "k"}
 	oddVals = []string{"", "", "required", "nonzero", "positive", "min=1", "max=1s", "bogus", "min=x"}
 )
 
@@ -677,7 +677,7 @@ func genTarget(t *rapid.T) TargetCase {
 func targetConfigs(opts []ucfg.Option) []*ucfg.Config {
 	c := ucfg.MustNewFrom(map[string]interface{}{
 		"a": 1, "b": "str", "l": []interface{}{1, "x", map[string]interface{}{"k": true}, nil, []int{1}},
-		"o": map[string]interface{}{"x": 1.5, "y": "${a}"}, "n": nil, "r": "${o}", "d": "1s", "k": map[string]interface{}{"k": map[string]interface{}{"k": 2}},
+		"o": map[string]interface{}{"x": 1.5, "y": "${a}"}, "n": nil, "r": "${o}", "d": "1s", "t": true, "f": 2.5, "k": map[string]interface{}{"k": map[string]interface{}{"k": 2}},
 	}, opts...)
 	lc := ucfg.MustNewFrom([]interface{}{1, map[string]interface{}{"a": 2}}, opts...)
 	ec := ucfg.New()
